@@ -92,60 +92,110 @@ func keyIsExternal(key string) bool {
 	return false
 }
 
+// effectOf: union of the direct write effects of every function reachable from fn in the
+// conservative call graph (static calls, interface calls by method name, dynamic calls to every
+// address-taken function).
 func (P *Program) effectOf(fn *ssa.Function) *Effect {
 	P.mu.Lock()
 	if P.effCache == nil {
 		P.effCache = map[*ssa.Function]*Effect{}
-		P.effBusy = map[*ssa.Function]bool{}
 	}
 	if e, ok := P.effCache[fn]; ok {
 		P.mu.Unlock()
 		return e
 	}
-	if P.effBusy[fn] {
-		P.mu.Unlock()
-		return &Effect{All: true, Keys: map[string]bool{}}
-	}
-	P.effBusy[fn] = true
 	P.mu.Unlock()
-	eff := P.computeEffect(fn)
+	eff := &Effect{Keys: map[string]bool{}}
+	if !inFalco(fn) || fn.Blocks == nil {
+		eff.add(P.directEffect(fn))
+		if !inFalco(fn) && P.externEffect(fn, nil) == "full" {
+			// callbacks: functions of matching signature / methods of the interfaces it receives
+			P.buildCallGraph()
+			sig := fn.Signature
+			for k := 0; k < sig.Params().Len(); k++ {
+				switch u := sig.Params().At(k).Type().Underlying().(type) {
+				case *types.Signature:
+					for _, f := range P.cgDyn {
+						if sameSig(f.Signature, u) {
+							eff.add(P.effectOf(f))
+						}
+					}
+				case *types.Interface:
+					for m := 0; m < u.NumMethods(); m++ {
+						for _, f := range P.methodsImplementing(sig.Params().At(k).Type(), u.Method(m)) {
+							eff.add(P.effectOf(f))
+						}
+					}
+				}
+			}
+		}
+	} else {
+		P.buildCallGraph()
+		seen := map[*ssa.Function]bool{}
+		stack := []*ssa.Function{fn}
+		dynDone := false
+		for len(stack) > 0 && !eff.full() {
+			f := stack[len(stack)-1]
+			stack = stack[:len(stack)-1]
+			if seen[f] {
+				continue
+			}
+			seen[f] = true
+			eff.add(P.directEffect(f))
+			stack = append(stack, P.cgEdges[f]...)
+			if P.cgIsDyn[f] && !dynDone {
+				dynDone = true
+				stack = append(stack, P.cgDyn...)
+			}
+		}
+	}
 	P.mu.Lock()
 	P.effCache[fn] = eff
-	delete(P.effBusy, fn)
 	P.mu.Unlock()
 	return eff
 }
 
-func (P *Program) computeEffect(fn *ssa.Function) *Effect {
+// directEffect: what the instructions of fn itself write (callees in falco excluded).
+func (P *Program) directEffect(fn *ssa.Function) *Effect {
+	P.mu.Lock()
+	if P.dirCache == nil {
+		P.dirCache = map[*ssa.Function]*Effect{}
+	}
+	if e, ok := P.dirCache[fn]; ok {
+		P.mu.Unlock()
+		return e
+	}
+	P.mu.Unlock()
+	eff := P.computeDirect(fn)
+	P.mu.Lock()
+	P.dirCache[fn] = eff
+	P.mu.Unlock()
+	return eff
+}
+
+func (P *Program) computeDirect(fn *ssa.Function) *Effect {
 	eff := &Effect{Keys: map[string]bool{}}
-	if fn.Blocks == nil {
+	if !inFalco(fn) || fn.Blocks == nil {
 		if inFalco(fn) {
 			eff.setAll()
-		} else {
-			switch P.externEffect(fn, nil) {
-			case "pure":
-			case "shallow":
-				eff.Ext = true
-			default:
-				eff.setAll()
+			return eff
+		}
+		switch P.externEffect(fn, nil) {
+		case "pure":
+		default:
+			eff.Ext = true
+			// slices handed to a mutating external function may be written
+			sig := fn.Signature
+			for i := 0; i < sig.Params().Len(); i++ {
+				if st, ok := sig.Params().At(i).Type().Underlying().(*types.Slice); ok {
+					P.elemStoreEffect(eff, st.Elem())
+				}
 			}
 		}
 		return eff
 	}
-	if !inFalco(fn) {
-		switch P.externEffect(fn, nil) {
-		case "pure":
-		case "shallow":
-			eff.Ext = true
-		default:
-			eff.setAll()
-		}
+	if con := P.contractFor(fn); con != nil && con.has("pure") && con.Extern {
 		return eff
-	}
-	if con := P.contractFor(fn); con != nil {
-		if con.has("pure") {
-			return eff
-		}
 	}
 	for _, b := range fn.Blocks {
 		for _, ins := range b.Instrs {
@@ -160,17 +210,73 @@ func (P *Program) computeEffect(fn *ssa.Function) *Effect {
 				} else {
 					eff.setAll()
 				}
-			case *ssa.Send, *ssa.Go, *ssa.Select:
-				eff.setAll()
+			case *ssa.Send, *ssa.Select:
+				// channel operations do not write modelled memory themselves
 			case ssa.CallInstruction:
-				P.callEffect(eff, x.Common(), fn)
-			}
-			if eff.full() {
-				return eff
+				c := x.Common()
+				if b, ok := c.Value.(*ssa.Builtin); ok {
+					P.builtinEffect(eff, b, c)
+					continue
+				}
+				if c.IsInvoke() {
+					continue
+				}
+				if callee := c.StaticCallee(); callee != nil && !inFalco(callee) {
+					switch P.externEffect(callee, c) {
+					case "pure":
+					default:
+						eff.Ext = true
+						for _, a := range c.Args {
+							if st, ok := a.Type().Underlying().(*types.Slice); ok {
+								if isFalcoTypeName(typeName(st.Elem())) || true {
+									P.elemStoreEffect(eff, st.Elem())
+								}
+							}
+							// pointer to a falco struct handed to external code (json.Unmarshal ...)
+							if pt, ok := a.Type().Underlying().(*types.Pointer); ok {
+								if _, isS := isStruct(pt.Elem()); isS && isFalcoTypeName(typeName(pt.Elem())) {
+									P.structStoreEffect(eff, pt.Elem())
+								}
+							}
+							if types.IsInterface(a.Type()) {
+								// an interface holding a pointer to falco data (e.g. yaml/json decoding targets)
+								if mi, ok := a.(*ssa.MakeInterface); ok {
+									if pt, ok := mi.X.Type().Underlying().(*types.Pointer); ok {
+										if _, isS := isStruct(pt.Elem()); isS && isFalcoTypeName(typeName(pt.Elem())) && P.externEffect(callee, c) == "full" {
+											P.structStoreEffect(eff, pt.Elem())
+										}
+									}
+								}
+							}
+						}
+					}
+				}
 			}
 		}
 	}
 	return eff
+}
+
+func (P *Program) builtinEffect(eff *Effect, b *ssa.Builtin, c *ssa.CallCommon) {
+	switch b.Name() {
+	case "append", "copy":
+		if st, ok := c.Args[0].Type().Underlying().(*types.Slice); ok {
+			P.elemStoreEffect(eff, st.Elem())
+		} else {
+			eff.setAll()
+		}
+	case "delete":
+		if mt, ok := c.Args[0].Type().Underlying().(*types.Map); ok {
+			eff.Keys["MD:"+typeName(mt.Key())+":"+typeName(mt.Elem())] = true
+		}
+	case "clear":
+		switch u := c.Args[0].Type().Underlying().(type) {
+		case *types.Map:
+			eff.Keys["MD:"+typeName(u.Key())+":"+typeName(u.Elem())] = true
+		case *types.Slice:
+			P.elemStoreEffect(eff, u.Elem())
+		}
+	}
 }
 
 func (P *Program) storeEffect(eff *Effect, addr ssa.Value, vt types.Type) {
@@ -253,52 +359,34 @@ func (P *Program) elemStoreEffect(eff *Effect, et types.Type) {
 
 func (P *Program) callEffect(eff *Effect, c *ssa.CallCommon, caller *ssa.Function) {
 	if b, ok := c.Value.(*ssa.Builtin); ok {
-		switch b.Name() {
-		case "append":
-			if st, ok := c.Args[0].Type().Underlying().(*types.Slice); ok {
-				P.elemStoreEffect(eff, st.Elem())
-			} else {
-				eff.setAll()
-			}
-		case "copy":
-			if st, ok := c.Args[0].Type().Underlying().(*types.Slice); ok {
-				P.elemStoreEffect(eff, st.Elem())
-			} else {
-				eff.setAll()
-			}
-		case "delete":
-			if mt, ok := c.Args[0].Type().Underlying().(*types.Map); ok {
-				eff.Keys["MD:"+typeName(mt.Key())+":"+typeName(mt.Elem())] = true
-			}
-		case "clear":
-			eff.setAll()
-		}
+		P.builtinEffect(eff, b, c)
 		return
 	}
 	if c.IsInvoke() {
 		if P.methodAssumedPure(c.Value.Type(), c.Method.Name()) {
 			return
 		}
-		impls := P.implementers(c.Value.Type())
-		if len(impls) == 0 || len(impls) > 40 || !P.closedWorld(c.Value.Type()) {
-			eff.setAll()
-			return
-		}
-		for _, t := range impls {
-			m := P.prog.LookupMethod(t, c.Method.Pkg(), c.Method.Name())
-			if m == nil {
-				eff.setAll()
-				return
-			}
+		for _, m := range P.methodsImplementing(c.Value.Type(), c.Method) {
 			eff.add(P.effectOf(m))
+		}
+		if !P.closedWorld(c.Value.Type()) {
+			eff.Ext = true // implementers outside falco write only their own memory
 		}
 		return
 	}
 	callee := c.StaticCallee()
 	if callee == nil {
-		// closure value created in this function and called directly is handled by StaticCallee;
-		// anything else is unknown
-		eff.setAll()
+		P.buildCallGraph()
+		if sig, ok := c.Value.Type().Underlying().(*types.Signature); ok {
+			for _, f := range P.cgDyn {
+				if sameSig(f.Signature, sig) {
+					eff.add(P.effectOf(f))
+				}
+			}
+		} else {
+			eff.setAll()
+		}
+		eff.Ext = true
 		return
 	}
 	if con := P.contractFor(callee); con != nil && !con.Extern {
@@ -317,6 +405,9 @@ func (P *Program) callEffect(eff *Effect, c *ssa.CallCommon, caller *ssa.Functio
 
 // havocEffect applies an inferred write effect to a state.
 func (eff *Effect) hits(key string) bool {
+	if isGhostKey(key) {
+		return false // ghost fields change only through ghost-effects (see havocGhosts)
+	}
 	if eff.All && (eff.Except == "" || !strings.HasPrefix(key, eff.Except)) {
 		return true
 	}
